@@ -165,6 +165,27 @@ mod private {
                 }
             }
         }
+        // the same two words as the tokeniser hands them over when a letter was expanded ('ß' -> "ss"): the ORIGINAL text
+        // (`source`) carries U+0000 padding under some letters; the distance is a function of the normalised letters and
+        // their classes only
+        if !c1.is_empty() && shared_err.is_none() {
+            let mut p1 = word_text(c1, &k1);
+            let mut p2 = word_text(c2, &k2);
+            for (i, x) in p1.source.iter_mut().enumerate() {
+                if i % 3 == 1 {
+                    *x = '\0';
+                }
+            }
+            if let Some(x) = p2.source.last_mut() {
+                *x = '\0';
+            }
+            let got = DamerauLevenshtein::new().distance(&p1.view(0), &p2.view(0));
+            cx.eval();
+            cx.count("calls on words whose original text is padded");
+            if got != DamerauLevenshtein::new().distance(&t1.view(0), &t2.view(0)) {
+                shared_err = Some(format!("with U+0000 padding in the words' original text the distance is {}", got));
+            }
+        }
         let d21 = with_dl!(|d: &DamerauLevenshtein| d.distance(&t2.view(0), &t1.view(0)));
         let fresh = DamerauLevenshtein::new().distance(&t1.view(0), &t2.view(0));
         cx.eval();
@@ -446,6 +467,8 @@ impl Prims {
             "straße", "œuvre", "t-shirt", "aab", "b", "𝐀𝐁𝐂", "😀😀", "𝐀b", "a\u{0}b",
             // letters above U+FFFF whose low 16 bits are a BMP letter, next to the words they would collide with if a
             // gram were packed into 16 bits per letter ([x,a,U+20061] ~ [x,c,a]; [x,U+20061,r] ~ [z,a,r])
+            // title-case letters (neither upper nor lower case) and their lower-case forms: different letters, different grams
+            "ǅemal", "ǆemal", "ᾈδης", "ᾀδης",
             "xa\u{20061}", "xca", "x\u{20061}r", "zar", "\u{20061}bc", "abc", "\u{20062}\u{20061}", "ba",
         ];
         let n = match cx.rng.below(40) {
@@ -462,7 +485,7 @@ impl Prims {
         }
         let k = cx.rng.range(2, words.len());
         // one store in ten draws from the last eight words only (the non-BMP letters and their BMP look-alikes)
-        let lo = if cx.rng.chance(1, 10) { words.len() - 8 } else { 0 };
+        let lo = if cx.rng.chance(1, 10) { words.len() - 12 } else { 0 };
         let k = if lo > 0 { words.len() } else { k };
         if lo > 0 {
             cx.count("stores of words with letters above U+FFFF and their 16-bit look-alikes");
@@ -925,6 +948,7 @@ impl Prop for Prims {
                         a
                     }
                     2 => cv("aeiob\0cdf19xж"),
+                    3 if cx.rng.chance(1, 2) => cv("ae\0\u{7f}\u{80}\u{ff}\u{100}\u{7ff}\u{800}\u{ffff}\u{10000}\u{1ffff}\u{10ffff}b"),
                     _ => cv("aeiobcdf19xж"),
                 };
                 // half of the cases run their whole call history on an instance of their own, so that
@@ -1073,6 +1097,10 @@ impl Prop for Prims {
                     a.extend((0..8u32).filter_map(|k| std::char::from_u32(0x161 + k * 0x100)));
                     cx.count("random cases over a wide alphabet");
                     a
+                } else if cx.rng.chance(1, 6) {
+                    // code points at the edges of every encoding length and table size
+                    cx.count("random cases over boundary code points");
+                    cv("\0\u{1}\u{7f}\u{80}\u{81}\u{ff}\u{100}\u{7ff}\u{800}\u{d7ff}\u{e000}\u{ffff}\u{10000}\u{10001}\u{1ffff}\u{20000}\u{10ffff}ab")
                 } else if cx.rng.chance(1, 3) {
                     // U+0000 (the library's own fill value) is a character like any other
                     cv("\0abcdefghijklmnopqrstuvwxyzäöüßё")
